@@ -85,6 +85,10 @@ def View.active (v : View) : List Nat :=
 def View.find (v : View) (seq : Nat) : Option (Nat × List Nat × Option (List Nat)) :=
   v.issued.find? (fun e => e.1 == seq)
 
+def View.tokenKnown (v : View) : Option (List Nat) → Bool
+  | some t => v.tokens.contains t
+  | none => false
+
 /-- how an event changes what the peer knows (no checking) -/
 def observe (v : View) : Ev → View
   | .tp l => { v with limit := l }
@@ -102,12 +106,18 @@ def observe (v : View) : Ev → View
 
 /-- the RFC rule an event of E violates in view `v`, if any -/
 def check (v : View) : Ev → Option Reject
+  | .hs seq cid tok =>
+    -- handshake ids: sequence number 0 (1 for the preferred address), distinct from each other
+    if seq ≠ v.nextSeq then some .seqGap
+    else if v.cids.contains cid then some .dupCid
+    else if v.tokenKnown tok then some .dupToken
+    else none
   | .txNcid f =>
     if f.seq < f.rpt then some .retirePriorTo else
     match v.find f.seq with
     | some (_, cid, tok) =>
       -- the same sequence number again: must be the same connection ID and token (retransmission)
-      if cid ≠ f.cid ∨ (tok ≠ none ∧ tok ≠ some f.token) then some .retransmitDiffers
+      if cid ≠ f.cid ∨ tok ≠ some f.token then some .retransmitDiffers
       else if (observe v (.txNcid f)).active.length ≤ v.limit then none else some .limitExceeded
     | none =>
       if f.seq ≠ v.nextSeq then some .seqGap
